@@ -40,6 +40,27 @@ T = {
  'C19-a': ('C19', 'partial/idn2/is_utf8_domain.c: IDN-failure branch returns directly instead of goto done',
            'idn2_to_ascii_8z fails AND has produced an output buffer: the buffer leaks'),
 }
+T.update({
+ 'C01-b': ('C01', 'partial/idn2/eav.c: repeated eav_setup in mode 6531 breaks out into the ASCII tail', 'two consecutive eav_setup calls with rfc 6531, then an address on which 6531 and the stale ASCII mode differ'),
+ 'C02-b': ('C02', 'src/is_5322_local.c: closing-quote rule skipped when the quote is preceded by a backslash', 'mode 5322, a quoted string ending in an escaped backslash directly followed by atom text'),
+ 'C03-b': ('C03', 'src/utf8_decode.c cont(): range test on a signed value takes end-of-input for a continuation byte', 'mode 6531, a local part that ends inside a multi-byte sequence'),
+ 'C04-b': ('C04', 'src/is_ascii_domain.c: label length checked only when a dot is met', 'an over-long LAST label (64+ bytes)'),
+ 'C05-b': ('C05', 'src/is_ipv4_ipv6.c: one more colon allowed once a "::" was seen', '8 hex groups plus an interior "::"'),
+ 'C06-b': ('C06', 'src/is_ipv4_ipv6.c is_ipv4: octet value tested once per octet, accumulator unbounded', 'an IPv4 octet of 10 or more digits (signed overflow)'),
+ 'C07-b': ('C07', 'include/eav/private_email.h check_tld: last label copied into a 24-byte buffer, longer labels clamped', 'ASCII mode, tld_check on, a 25..63-byte last label whose first 24 bytes are the table\'s 24-byte entry'),
+ 'C08-b': ('C08', 'partial/idn2/eav.c: GENERIC_RESTRICTED tested against the GENERIC bit', 'allow_tld with exactly one of the two bits, TLD biz/name/pro'),
+ 'C09-b': ('C09', 'src/is_special_domain.c: reserved[] entry { "example", 7 }', 'a 9-byte last label starting with "example"'),
+ 'C10-b': ('C10', 'partial/idn2/is_utf8_domain.c: root dot stripped before the TLD lookup', 'mode 6531, tld_check on, a non-reserved domain with trailing root dot'),
+ 'C11-b': ('C11', 'src/auto_tld.c: row { "cooking", 7, TLD_TYPE_GENERIC }', 'a TLD that begins with "cooking" and is longer'),
+ 'C12-b': ('C12', 'src/is_822_email.c: early DOMAIN_TOO_LONG guard before the local-part scan', 'mode 822 only, a domain part of 254 bytes or more'),
+ 'C13-b': ('C13', 'partial/idn2/eav.c eav_setup: two edits let utf8 and initialized desynchronise', 'history: setup(6531), setup(invalid rfc), setup(ASCII mode), then a non-ASCII address'),
+ 'C14-b': ('C14', 'src/is_tld.c: file-scope static one-entry cache', 'two threads validating TLDs of different classes concurrently'),
+ 'C15-b': ('C15', 'partial/idn2/eav.c: errcode EEAV_TLD_GENERIC recorded for class GENERIC_RESTRICTED', 'allow_tld without GENERIC_RESTRICTED, TLD biz/name/pro'),
+ 'C16-b': ('C16', 'partial/idn2/is_6531_email.c: is_domain set only for rc == 0 or rc > 1', 'mode 6531, tld_check on, a not-assigned TLD'),
+ 'C17-b': ('C17', 'src/is_6531_local.c: RFC20 character test hoisted with the guard !quote || qpair', 'RFC6531_FOLLOW_RFC20 build, mode 6531, an escaped RFC20 character inside a quoted string'),
+ 'C18-b': ('C18', 'partial/idnkit/eav.c: initialized not reset when the context is destroyed in eav_setup', 'idnkit build, history setup(6531), setup(ASCII), free (double destroy) or setup(6531) again (use after destroy)'),
+ 'C19-b': ('C19', 'partial/idn2/eav.c: idnmsg looked up lazily, only when still NULL', 'two consecutive IDN failures with different codes on one object'),
+})
 for sid, (prop, change, needs) in T.items():
     d = os.path.join(S, sid)
     if not os.path.isdir(d):
@@ -59,5 +80,10 @@ for sid, (prop, change, needs) in T.items():
                 origin='written by an independent sub-agent that saw only the property text and its own worktree',
                 validated='tools/validate_seed.sh: applies, builds without warnings, `make check` exit 0 with the change, demo exits 0 on the unchanged tree and non-zero on the changed one',
                 check_runs=runs)
+    if sid == 'C05-a':
+        meta['note'] = ('quick tier: UNDECIDED (exit 2) - the is_ipv6 job runs into the 840 s quick budget / 30 GB on this change; '
+                        'the log kept here is the thorough-tier run (tools/run_seed.sh C05-a C05 --tier thorough --only is_ipv6), which refutes strspn.assertion.1 after 38 minutes')
+    if sid in ('C09-b', 'C17-b'):
+        meta['note'] = 'missed (check passed, exit 0) by the machinery as it was when the seed was written; the contract gap it exposed was closed (DESIGN.md 11.4) and the log kept here is the run after that'
     json.dump(meta, open(os.path.join(d, 'meta.json'), 'w'), indent=1, ensure_ascii=False)
     print(sid, prop, [r['outcome'] for r in runs])
